@@ -368,7 +368,7 @@ pub fn run(args: &Args) -> ! {
     ctx.rule("expansion: yearly schedules with 1-12 periods of arbitrary positive lengths (1..400 days, any sum), 1-4 weekly patterns as runs summing to 7, 1-8 daily schedules; oracle: day d (year starts on a Monday) takes slot d mod 7 of the 7-day expansion of the weekly schedule of the period containing d. dates: HULC SCHEDULE-PD texts whose end dates are - exhaustively - each of the 365 dates followed by 31 December, and random increasing lists of 1-12 dates ending on 31 December, WEEK-SCHEDULE-PD with 7 names or 1, DAY-SCHEDULE-PD with 24 values or 1, converted with Data::new + Model::try_from; oracle: the month-length table. buildings: schedules of generated typed buildings. use: generated closed models with 1-6 spaces sharing or not sharing loads and schedules, spaces that must not count (uninhabited, outside, without loads, loads without people schedule), multipliers, and the shipped models; oracle: own 8760-value expansion, hours with at least one counted space occupied, floor-area-weighted load mean. Non-trivial: >= 3 periods with boundaries off the week grid; >= 2 occupied spaces whose occupied hours overlap partially.");
     ctx.assume("generated schedule values are 0 or >= 0.01 (away from the 1e-5 threshold); the load mean is asserted only when every habitable space inside the envelope has a loads definition");
     ctx.replay_regressions(replay_one);
-    ctx.run_prop("expansion", ctx.tier().pick(20_000, 1_000_000), exp_case, check_expansion);
+    ctx.run_prop("expansion", ctx.tier().pick(100_000, 1_000_000), exp_case, check_expansion);
     // every date of the year, followed by 31 December
     let mut all_dates = vec![];
     for m in 1..=12u32 {
@@ -378,15 +378,15 @@ pub fn run(args: &Args) -> ! {
         }
     }
     ctx.run_enum("all_365_end_dates", &all_dates, true, check_dates);
-    ctx.run_prop("date_lists", ctx.tier().pick(3_000, 150_000), date_lists, check_dates);
-    ctx.run_prop("buildings", ctx.tier().pick(300, 20_000), gb::bld, check_bld_schedules);
+    ctx.run_prop("date_lists", ctx.tier().pick(15_000, 200_000), date_lists, check_dates);
+    ctx.run_prop("buildings", ctx.tier().pick(1_000, 20_000), gb::bld, check_bld_schedules);
     let real = shipped_models();
     ctx.run_enum("shipped", &real.iter().map(|(n, _)| n.clone()).collect::<Vec<_>>(), true, |h, name| {
         let m = &real.iter().find(|(n, _)| n == name).unwrap().1;
         h.nontrivial(fp(name));
         check_use_model(h, m)
     });
-    ctx.run_prop("use", ctx.tier().pick(1_500, 60_000), use_plan, check_use_plan);
+    ctx.run_prop("use", ctx.tier().pick(6_000, 100_000), use_plan, check_use_plan);
     for c in ["all_365_end_dates/end-date-in-february", "use/average-load-checked", "use/partially-overlapping-occupancy", "use/space-that-must-not-count"] {
         ctx.require_class(c);
     }
